@@ -81,6 +81,18 @@ Theorem C08_single_range_all_alignments :
   forallb (fun o => forallb (fun a => forallb (fun b => c08_agree o a b) (zrange a 49)) (zrange 0 48)) c08_ops = true.
 Proof. vm_compute. reflexivity. Qed.
 
+(* C08: rows starting in an uncovered coverage pixel, crossing block edges, ending at the last pixel *)
+Example C08_rows_hypotheses_satisfiable :
+  let k := mkk 0 (-5 # 1) 1 in
+  let m := x_update k (make_empty cellv 12 4 [(-5 # 1)%Q] None) URepl [(45, [(7 # 1)%Q])] false in
+  forall r, In r [(2, 11); (40, 48); (7, 7)] -> row_ok (xparams k) m r.
+Proof.
+  intros k m.
+  assert (E : npix cellv m = 48) by (vm_compute; reflexivity).
+  intros r [<-|[<-|[<-|[]]]]; unfold row_ok; cbn [fst snd p_V xparams]; rewrite E; lia.
+Qed.
+
+
 Print Assumptions C08_ranges_contain.
 Print Assumptions C08_reserved_coverage_is_a_superset.
 Print Assumptions C08_slice_operation_pointwise.
@@ -88,3 +100,4 @@ Print Assumptions C08_range_update_equals_explicit_pixel_update.
 Print Assumptions C08_range_update_keeps_layout.
 Print Assumptions C08_overlapping_add_with_nonzero_sentinel_refuted.
 Print Assumptions C08_single_range_all_alignments.
+Print Assumptions C08_rows_hypotheses_satisfiable.
